@@ -94,7 +94,11 @@ def array_spec(draw, size, dtype, fuzzy=False, pool=None, mask_kind=None, payloa
         for i, m in enumerate(mask):
             if m:
                 data[i] = draw(st.sampled_from(payloads + ([data[0]] if data else [])))
-    return {"data": data, "mask": mask, "dtype": dtype}
+    spec = {"data": data, "mask": mask, "dtype": dtype}
+    layout = draw(st.sampled_from(["c", "c", "c", "f", "strided", "reversed"]))
+    if layout != "c":
+        spec["layout"] = layout
+    return spec
 
 
 def _distinct(xs):
